@@ -192,7 +192,7 @@ def cprNL(lat: float) -> int:
 
     if np.isclose(lat, 0):
         return 59
-    elif np.isclose(abs(lat), 87):
+    elif np.isclose(abs(lat), 87, rtol=0, atol=1e-9):
         return 2
     elif lat > 87 or lat < -87:
         return 1
